@@ -1,7 +1,191 @@
+import ElvisVerif.Model.Ndl
+import ElvisVerif.Model.NdlRun
 import Driver.Common
-/-! Line-protocol handlers for C19 (sub-commands `c19` / `c19-*`). -/
-namespace Driver.C19
+/-! Line-protocol handlers for C19 (`c19-parse`, `c19-run`) and the NDL clause of C14 (`c14-ndl`).
 
-def dispatch (_sub : String) (_i _o : IO.FS.Stream) : Option (IO Unit) := none
+  `render <layout> <simspec…>` -> `text <hex utf-8>`
+  `parse <hex utf-8>`          -> `ok <dump>` | `err <kind>[ <line>]` | `panic <site>`
+  `lex <line> <hex utf-8>`     -> `ok <Type> P<k> … rest=<hex> line=<n>` | `err …` | `panic …`
+  `run <simspec…>`             -> `expect …`
+-/
+namespace Driver.C19
+open Elvis.Ndl
+
+def textOfHex (h : String) : Option Text := do
+  let bs ← Driver.parseHex h
+  let s ← String.fromUTF8? (ByteArray.mk bs.toArray)
+  pure s.toList
+
+def hexOfText (t : Text) : String := Driver.toHex (String.ofList t).toUTF8.toList
+
+def dtName (d : DecType) : String := String.ofList d.name
+
+/-- insertion sort (map entries by key bytes = by hex string) -/
+def insertBy {α : Type} (lt : α → α → Bool) (x : α) : List α → List α
+  | [] => [x]
+  | y :: r => if lt x y then x :: y :: r else y :: insertBy lt x r
+def sortBy {α : Type} (lt : α → α → Bool) (l : List α) : List α := l.foldr (insertBy lt) []
+
+def paramsTokens (p : Params) : List String :=
+  let es := sortBy (fun a b => decide (a.1 < b.1)) (p.map fun kv => (hexOfText kv.1, hexOfText kv.2))
+  s!"P{es.length}" :: es.map fun e => e.1 ++ "=" ++ e.2
+
+def leavesTokens (tag : String) (ls : List Leaf) : List String :=
+  s!"{tag}{ls.length}" :: ls.flatMap fun l => dtName l.dectype :: paramsTokens l.options
+
+def dumpSim (s : Sim) : String :=
+  let nets := sortBy (fun a b => decide (a.1 < b.1)) (s.networks.map fun e => (hexOfText e.1, e.2))
+  let nt := nets.flatMap fun e =>
+    ["net", e.1, dtName e.2.dectype] ++ paramsTokens e.2.options ++ leavesTokens "I" e.2.ip
+  let mt := s.machines.flatMap fun m =>
+    ["mach", dtName m.dectype] ++ paramsTokens m.options ++ leavesTokens "n" m.networks ++
+      leavesTokens "p" m.protocols ++ leavesTokens "a" m.applications
+  " ".intercalate ([s!"N{nets.length}"] ++ nt ++ [s!"M{s.machines.length}"] ++ mt)
+
+def kindName : ErrKind → String
+  | .section => "section" | .dectype => "dectype" | .extraArg => "extraArg" | .dupArg => "dupArg"
+  | .tabs => "tabs" | .expectedTabs => "expectedTabs" | .formatting => "formatting"
+  | .wrongType => "wrongType" | .unexpected => "unexpected" | .cannotDeclare => "cannotDeclare"
+  | .dupId => "dupId" | .missingId => "missingId" | .required => "required"
+
+def panicName : Panic → String
+  | .decTypeFrom => "decTypeFrom" | .tagSplit => "tagSplit" | .sliceTabs => "sliceTabs"
+  | .sliceNewlines => "sliceNewlines" | .lineOverflow => "lineOverflow" | .reqPosition => "reqPosition"
+
+def failLine : Fail → String
+  | .err k l =>
+    if k == .extraArg || k == .dupArg then s!"err {kindName k} {l}" else s!"err {kindName k}"
+  | .panic p => s!"panic {panicName p}"
+  | .fuel => "model-fuel-exhausted"
+
+/-! ### simspec tokens -/
+
+def countTok (tag : String) (t : String) : Option Nat :=
+  if t.startsWith tag then (t.drop tag.length).toString.toNat? else none
+
+def splitEq (t : String) : Option (String × String) :=
+  match t.splitOn "=" with
+  | [a, b] => some (a, b)
+  | _ => none
+
+def pOpts : Nat → List String → Option (Params × List String)
+  | 0, ts => some ([], ts)
+  | n + 1, t :: ts => do
+    let (k, v) ← splitEq t
+    let k ← textOfHex k
+    let v ← textOfHex v
+    let (r, ts') ← pOpts n ts
+    pure ((k, v) :: r, ts')
+  | _, [] => none
+
+def pParams : List String → Option (Params × List String)
+  | t :: ts => do
+    let n ← countTok "P" t
+    pOpts n ts
+  | [] => none
+
+def DecType.ofString (s : String) : Option DecType := DecType.ofName s.toList
+
+def pLeafN : Nat → List String → Option (List Leaf × List String)
+  | 0, ts => some ([], ts)
+  | n + 1, d :: ts => do
+    let dt ← DecType.ofString d
+    let (p, ts) ← pParams ts
+    let (r, ts) ← pLeafN n ts
+    pure (⟨dt, p⟩ :: r, ts)
+  | _, [] => none
+
+def pLeaves (tag : String) : List String → Option (List Leaf × List String)
+  | t :: ts => do
+    let n ← countTok tag t
+    pLeafN n ts
+  | [] => none
+
+def pNets : Nat → List String → Option (List (Text × Network) × List String)
+  | 0, ts => some ([], ts)
+  | n + 1, "net" :: id :: d :: ts => do
+    let id ← textOfHex id
+    let dt ← DecType.ofString d
+    let (p, ts) ← pParams ts
+    let (ips, ts) ← pLeaves "I" ts
+    let (r, ts) ← pNets n ts
+    pure ((id, ⟨dt, p, ips⟩) :: r, ts)
+  | _, _ => none
+
+def pMachs : Nat → List String → Option (List Machine × List String)
+  | 0, ts => some ([], ts)
+  | n + 1, "mach" :: d :: ts => do
+    let dt ← DecType.ofString d
+    let (p, ts) ← pParams ts
+    let (ns, ts) ← pLeaves "n" ts
+    let (ps, ts) ← pLeaves "p" ts
+    let (as, ts) ← pLeaves "a" ts
+    let (r, ts) ← pMachs n ts
+    pure (⟨dt, p, ns, ps, as⟩ :: r, ts)
+  | _, _ => none
+
+def pSim : List String → Option Sim
+  | t :: ts => do
+    let n ← countTok "N" t
+    let (nets, ts) ← pNets n ts
+    match ts with
+    | t :: ts =>
+      let m ← countTok "M" t
+      let (ms, ts) ← pMachs m ts
+      if ts.isEmpty then pure ⟨nets, ms⟩ else none
+    | [] => none
+  | [] => none
+
+def pLayout : String → Option Layout
+  | "tabs" => some .tabs | "spaces" => some .spaces | "crlf" => some .crlf | _ => none
+
+def lexLine (r : LexOk) : String :=
+  " ".intercalate (["ok", dtName r.dectype] ++ paramsTokens r.params ++
+    [s!"rest={hexOfText r.rest}", s!"line={r.line}"])
+
+/-- `expect <exited|timedout> {cap <machine-hex> <msg-hex,…|->}` (captures by machine name) -/
+def expectLine (s : Sim) : String :=
+  let caps := sortBy (fun a b => decide (a.1 < b.1))
+    ((Elvis.Ndl.Run.expectedDeliveries s).map fun e =>
+      (hexOfText e.1, sortBy (fun a b => decide (a < b)) (e.2.map hexOfText)))
+  let st := if Elvis.Ndl.Run.expectedExit s then "exited" else "timedout"
+  " ".intercalate (["expect", st] ++ caps.flatMap fun c =>
+    ["cap", c.1, if c.2.isEmpty then "none" else ",".intercalate c.2])
+
+def answer : List String → String
+  | ["case", id] => s!"case {id}"
+  | ["parse", h] =>
+    match textOfHex h with
+    | none => "bad-op"
+    | some t =>
+      match parse t with
+      | .ok s => "ok " ++ dumpSim s
+      | .error e => failLine e
+  | ["lex", n, h] =>
+    match n.toNat?, textOfHex h with
+    | some n, some t =>
+      match generalParser t n with
+      | .ok r => lexLine r
+      | .error e => failLine e
+    | _, _ => "bad-op"
+  | "render" :: lay :: spec =>
+    match pLayout lay, pSim spec with
+    | some lay, some s => "text " ++ hexOfText (render lay s)
+    | _, _ => "bad-op"
+  | ["expect-reject", _] => "-"
+  | ["expect-none"] => "-"
+  | "run-known" :: _ => "not-compared"
+  | "run" :: spec =>
+    match pSim spec with
+    | some s => expectLine s
+    | none => "bad-op"
+  | _ => "bad-op"
+
+def step (_ : Unit) (ws : List String) : Unit × String := ((), answer ws)
+
+def dispatch (sub : String) (i o : IO.FS.Stream) : Option (IO Unit) :=
+  if sub == "c19-parse" || sub == "c19-run" || sub == "c19" || sub == "c14-ndl" then
+    some (Driver.loop i o step ())
+  else none
 
 end Driver.C19
